@@ -30,7 +30,13 @@ Inductive op :=
 | AddOutput (o : txout) | PrependOutput (o : txout) | InsertOutput (k : nat) (o : txout) | SetOutput (k : nat) (o : txout)
 | SetVersion (v : N) | SetLocktime (v : N)
 | CloneOp                                       (* continue with tx.clone(): contents and cache are copied *)
-| Sighash (f : N) (idx : nat) (sub : list bit) (value : N).
+| Sighash (f : N) (idx : nat) (sub : list bit) (value : N)
+| AddInputs (l : list txin)                     (* add_inputs(Vec<TxIn>): add_input for every element, in order *)
+| AddOutputs (l : list txout)                   (* add_outputs(Vec<TxOut>) *)
+| HashInputsOp (f : N)                          (* the public hash_inputs(&mut self, sighash) *)
+| SignOp (f : N) (idx : nat) (sub : list bit) (value : N)   (* sign / sign_with_k: the returned value here is the
+                                                   buffer handed to ECDSA (sighash_preimage_impl), see Model/Sighash.tx_sign *)
+| GetOutpointsOp.                               (* get_outpoints(&mut self): reads only *)
 
 Section WithHash.
   Variable sha256d : bytes -> bytes.
@@ -125,9 +131,13 @@ Section WithHash.
     | SetVersion v => Ok (keep s (mk_tx v (inputs t) (outputs t) (locktime t)), None)
     | SetLocktime v => Ok (keep s (mk_tx (version t) (inputs t) (outputs t) v), None)
     | CloneOp => Ok (s, None)
-    | Sighash f idx sub value =>
+    | Sighash f idx sub value | SignOp f idx sub value =>
         let '(s', r) := sighash_cached s idx f sub value in
         match r with Panic => Panic | _ => Ok (s', Some r) end
+    | AddInputs l => Ok (fold_left (fun s0 i => clear_in s0 (add_input (st_tx s0) i)) l s, None)
+    | AddOutputs l => Ok (fold_left (fun s0 x => clear_out s0 (add_output (st_tx s0) x)) l s, None)
+    | HashInputsOp f => let '(s', h) := hash_inputs_c s f in Ok (s', Some (Ok h))
+    | GetOutpointsOp => Ok (s, None)
     end.
   Definition step := step_gen true.
   Definition step_prefix := step_gen false.
@@ -157,11 +167,15 @@ Section WithHash.
     | SetVersion v => Ok (mk_tx v (inputs t) (outputs t) (locktime t), None)
     | SetLocktime v => Ok (mk_tx (version t) (inputs t) (outputs t) v, None)
     | CloneOp => Ok (t, None)
-    | Sighash f idx sub value =>
+    | Sighash f idx sub value | SignOp f idx sub value =>
         match sighash_preimage sha256d t idx f sub value with
         | Panic => Panic
         | r => Ok (t, Some r)
         end
+    | AddInputs l => Ok (fold_left add_input l t, None)
+    | AddOutputs l => Ok (fold_left add_output l t, None)
+    | HashInputsOp f => Ok (t, Some (Ok (hash_inputs sha256d t f)))
+    | GetOutpointsOp => Ok (t, None)
     end.
   Fixpoint run_pure (ops : list op) (t : tx) : outcome (tx * list (outcome bytes)) :=
     match ops with
